@@ -16,6 +16,13 @@ package golang
 //@   ensures [wf] 0-1 <= result && result < NumStates
 //@   assigns nothing
 //@
+//@ # WF_lex, transition part: every transition function returns -1 or a state number (what transTabSrc emits)
+//@ axiom [wf-trans] forall2(f, r, 0-1 <= TransF(f, r) && TransF(f, r) < NumStates, trig(TransF(f, r)))
+//@
+//@ spec Trans(q int, r int) int = TransF(TransTab[q], r)
+//@ spec Acc(q int) int = ActTab[q].Accept
+//@ spec Ign(q int) bool = ActTab[q].Accept == 0-1
+//@
 //@ func NewLexer
 //@   prop C08 C16
 //@   ensures [fresh] result != nil && result >= old(alloc())
@@ -42,9 +49,21 @@ package golang
 //@   ghostaxiom [bndS] all(q, 0, len(l.src), imp(Bnd(q), Bnd(q+SizeAt(q))), trig(Bnd(q)))
 //@   ghostaxiom [lineS] all(q, 0, len(l.src), imp(Bnd(q), Line(q+SizeAt(q)) == Line(q) + ite(RuneAt(q) == '\n', 1, 0)), trig(Bnd(q)))
 //@   ghostaxiom [colS] all(q, 0, len(l.src), imp(Bnd(q), Col(q+SizeAt(q)) == ite(RuneAt(q) == '\n' || RuneAt(q) == '\r', 1, ite(RuneAt(q) == '\t', Col(q)+4, Col(q)+1))), trig(Bnd(q)))
+//@   # The DFA run of C01 (DESIGN 3.3). Run(s,p): state reached from state 0 at token start s after reading src[s:p].
+//@   # Live(s,p): that run is alive at p and did not pass an ignore state strictly between s and p.
+//@   # IgnChain(a,b): src[a:b] is a sequence of ignored lexemes, each skipped as soon as it is complete.
+//@   # Live and IgnChain are inductive: only their introduction rules are given, which is sound for the least fixed point.
+//@   ghost Run(s int, p int) int
+//@   ghost Live(s int, p int) bool
+//@   ghost IgnChain(a int, b int) bool
+//@   ghostaxiom [run0] forall(s, Run(s, s) == 0 && Live(s, s), trig(Run(s, s)))
+//@   ghostaxiom [runS] forall2(s, p, imp(0 <= s && s <= p && p < len(l.src) && Run(s, p) != 0-1, Run(s, p+SizeAt(p)) == Trans(Run(s, p), RuneAt(p))), trig(Run(s, p)))
+//@   ghostaxiom [liveS] forall2(s, p, imp(0 <= s && s <= p && p < len(l.src) && Live(s, p) && Run(s, p) != 0-1 && imp(p > s, !Ign(Run(s, p))) && Trans(Run(s, p), RuneAt(p)) != 0-1, Live(s, p+SizeAt(p))), trig(Live(s, p)))
+//@   ghostaxiom [ign0] forall(a, IgnChain(a, a), trig(IgnChain(a, a)))
+//@   ghostaxiom [ignS] forall3(a, m, b, imp(IgnChain(a, m) && m < b && Live(m, b) && Run(m, b) != 0-1 && Ign(Run(m, b)), IgnChain(a, b)), trig(IgnChain(a, m), Live(m, b)))
 //@   requires [l] l != nil
 //@   # WF_lex (DESIGN 3.3): what getActTab emits - an ignore name exactly for the states whose Accept is -1
-//@   requires [wf-act] all(s, 0, NumStates, iff(ActTab[s].Accept == 0-1, ActTab[s].Ignore != ""))
+//@   requires [wf-act] all(s, 0, NumStates, iff(ActTab[s].Accept == 0-1, ActTab[s].Ignore != "") && ActTab[s].Accept >= 0-1 && ActTab[s].Accept != 1)
 //@   requires [cursor] 0 <= l.pos && l.pos <= len(l.src) && Bnd(l.pos) && l.line == Line(l.pos) && l.column == Col(l.pos)
 //@   ensures [tok] tok != nil && tok >= old(alloc())
 //@   ensures [cursor] 0 <= l.pos && l.pos <= len(l.src) && Bnd(l.pos) && l.line == Line(l.pos) && l.column == Col(l.pos)
@@ -52,6 +71,14 @@ package golang
 //@   ensures [lit] len(tok.Lit) == l.pos - tok.Pos.Offset && imp(len(tok.Lit) > 0, arr(tok.Lit) == arr(l.src) && off(tok.Lit) == off(l.src) + tok.Pos.Offset)
 //@   ensures [progress] imp(old(l.pos) < len(l.src), l.pos > old(l.pos))
 //@   ensures [eof] imp(old(l.pos) >= len(l.src), tok.Type == token.EOF && l.pos == old(l.pos) && tok.Pos.Offset == l.pos)
+//@   # ---- C01: the token is the one the DFA run defines (S = token start, P = new cursor) ----
+//@   ensures [c01-kind] tok.Type == token.INVALID || tok.Type == token.EOF || tok.Type >= 2
+//@   ensures [c01-gap] IgnChain(old(l.pos), tok.Pos.Offset)
+//@   ensures [c01-token] imp(tok.Type >= 2, l.pos > tok.Pos.Offset && Live(tok.Pos.Offset, l.pos) && Run(tok.Pos.Offset, l.pos) != 0-1 && tok.Type == Acc(Run(tok.Pos.Offset, l.pos))
+//@     | && (l.pos == len(l.src) || Trans(Run(tok.Pos.Offset, l.pos), RuneAt(l.pos)) == 0-1))
+//@   ensures [c01-invalid] imp(tok.Type == token.INVALID, some(c, tok.Pos.Offset, l.pos+1, Bnd(c) && Live(tok.Pos.Offset, c) && Run(tok.Pos.Offset, c) != 0-1
+//@     | && (c == len(l.src) || Trans(Run(tok.Pos.Offset, c), RuneAt(c)) == 0-1) && l.pos == ite(c < len(l.src), c + SizeAt(c), c) && (c == tok.Pos.Offset || Acc(Run(tok.Pos.Offset, c)) == 0)))
+//@   ensures [c01-eof] imp(tok.Type == token.EOF, tok.Pos.Offset == len(l.src) && l.pos == len(l.src))
 //@   ensures [context] tok.Pos.Context == l.Context
 //@   assigns l.pos, l.line, l.column
 //@   loop 1
@@ -62,5 +89,13 @@ package golang
 //@     invariant [end] end <= l.pos && imp(state != 0-1 && l.pos > start, end == l.pos)
 //@     invariant [dead] imp(state == 0-1, l.pos > old(l.pos) && imp(end > start, Bnd(end) && l.line == Line(end) && l.column == Col(end)) && imp(end <= start, l.pos == start && Bnd(l.pos) && l.line == Line(l.pos) && l.column == Col(l.pos)))
 //@     invariant [fresh-start] imp(state != 0-1 && l.pos == start, tok.Type == token.INVALID || (tok.Type == token.EOF && start >= len(l.src)))
+//@     invariant [run] imp(state != 0-1, state == Run(start, l.pos) && Live(start, l.pos))
+//@     invariant [ign] IgnChain(old(l.pos), start)
+//@     invariant [verdict] imp(state != 0-1 && l.pos > start, tok.Type == Acc(state) && Acc(state) != 0-1)
+//@     invariant [dead-run] imp(state == 0-1, some(c, start, l.pos+1, Bnd(c) && Live(start, c) && 0 <= Run(start, c) && Run(start, c) < NumStates && (c == len(l.src) || Trans(Run(start, c), RuneAt(c)) == 0-1)
+//@       | && l.pos == ite(c < len(l.src), c + SizeAt(c), c)
+//@       | && imp(c > start, tok.Type == Acc(Run(start, c)) && Acc(Run(start, c)) != 0-1)
+//@       | && imp(c == start, tok.Type == token.INVALID || (tok.Type == token.EOF && start == len(l.src)))
+//@       | && imp(tok.Type != token.INVALID, end == c || c == start) && imp(tok.Type == token.INVALID, end == l.pos)))
 //@     invariant [tokobj] tok != nil && tok >= old(alloc()) && l.src == old(l.src)
 //@     decreases len(l.src) - l.pos + ite(state != 0-1, 1, 0)
